@@ -28,9 +28,20 @@ func Quiet() {
 		if os.Getenv("VERIF_VERBOSE") == "" {
 			log.SetOutput(io.Discard)
 		}
-		certmagic.HTTPPort = 18080
-		certmagic.HTTPSPort = 18443
+		// (a port pair of this process's own: several checks may run on the machine at once)
+		certmagic.HTTPPort = quietPort(18080)
+		certmagic.HTTPSPort = quietPort(18443)
 	})
+}
+
+// quietPort returns a loopback port that is free right now, fallback if none can be found.
+func quietPort(fallback int) int {
+	ln, err := net.Listen("tcp", "127.0.0.1:0")
+	if err != nil {
+		return fallback
+	}
+	defer ln.Close()
+	return ln.Addr().(*net.TCPAddr).Port
 }
 
 var (
